@@ -43,6 +43,18 @@ func SiblingPool() *hist.Pool {
 	}
 }
 
+// PunctPool: siblings whose first bytes lie on both sides of the wildcard delimiters in byte order ('!' and '$'
+// sort before '*', '~' and a non-ASCII character after '{'): the positions of the catch-all and parameter
+// edges among the sorted edges of a node shift when such a sibling is linked or unlinked.
+func PunctPool() *hist.Pool {
+	return &hist.Pool{
+		Methods:    []string{"GET"},
+		Patterns:   []string{"/!a", "/$b", "/*{w}", "/m", "/{x}", "/~c", "/éd"},
+		BadMethod:  "get",
+		BadPattern: "/{x",
+	}
+}
+
 // MethodPool: few patterns under several custom methods (the method roots slice grows, shrinks and
 // shifts; Truncate with several methods).
 func MethodPool() *hist.Pool {
@@ -119,6 +131,8 @@ func PoolNamed(name string, quick bool) *hist.Pool {
 		return SiblingPool()
 	case "methods":
 		return MethodPool()
+	case "punct":
+		return PunctPool()
 	case "nested":
 		return NestPool()
 	case "hosts":
@@ -495,28 +509,41 @@ func run(c *mc.Ctx, r *mc.Result) {
 // sibling sorting first / in the middle / last, directly, committed and aborted; after each, the
 // complete observation is compared with the map model.
 func runFan(c *mc.Ctx, r *mc.Result) {
-	const letters = "0123456789ABCDEFGHIJKLMNOPQRSTUVWXYZabcdefghijklmnopqrstuvwxyz"
-	r.Bounds["fan"] = "48..53 static siblings under '/' and under '/{p}/' x {Handle new first/middle/last, Update/Delete first/middle/last, UpdateRoute, HandleRoute} x {direct, committed txn, aborted txn}; the same with a parameter edge and a catch-all edge on the big node and routes added / updated / deleted through them"
+	var ascii, wide []string
+	for _, b := range []byte("0123456789ABCDEFGHIJKLMNOPQRSTUVWXYZabcdefghijklmnopqrstuvwxyz") {
+		ascii = append(ascii, string(b))
+	}
+	// a second alphabet whose first bytes span more than half of the byte range: 32 ASCII characters up to 'V'
+	// and 30 two-byte UTF-8 characters with the lead bytes 0xC2..0xDF
+	wide = append(wide, ascii[:32]...)
+	for lead := 0xC2; lead <= 0xDF; lead++ {
+		wide = append(wide, string([]byte{byte(lead), 0xA9}))
+	}
+	r.Bounds["fan"] = "48..53 static siblings under '/', '/{p}/' and 'h.x/' x {Handle new first/middle/last, Update/Delete first/middle/last, UpdateRoute, HandleRoute} x {direct, committed txn, aborted txn}; the same with a parameter edge and a catch-all edge on the big node and routes added / updated / deleted through them; the same under '/' and 'h.x/' with siblings whose first bytes range from '0' to 0xDF (non-ASCII characters)"
 	type fanCase struct {
-		prefix string
-		wild   bool
+		prefix  string
+		wild    bool
+		letters []string
 	}
 	var fcs []fanCase
 	for _, prefix := range []string{"/", "/{p}/", "h.x/"} {
-		fcs = append(fcs, fanCase{prefix, false}, fanCase{prefix, true})
+		fcs = append(fcs, fanCase{prefix, false, ascii}, fanCase{prefix, true, ascii})
+		if prefix != "/{p}/" {
+			fcs = append(fcs, fanCase{prefix, false, wide}, fanCase{prefix, true, wide})
+		}
 	}
 	for _, fc := range fcs {
-		prefix := fc.prefix
+		prefix, letters := fc.prefix, fc.letters
 		for n := 48; n <= 53; n++ {
-			if fc.wild && n != 49 && n != 51 && n != 52 {
+			if (fc.wild || len(letters) != len(ascii)) && n != 49 && n != 51 && n != 52 {
 				continue
 			}
 			// siblings use every other letter so that new ones can sort first, in the middle and last
 			var pats []string
 			for i := 0; i < n; i++ {
-				pats = append(pats, prefix+string(letters[1+i]))
+				pats = append(pats, prefix+letters[1+i])
 			}
-			newOnes := []string{prefix + string(letters[0]), prefix + string(letters[1+n/2]) + "x", prefix + string(letters[1+n])}
+			newOnes := []string{prefix + letters[0], prefix + letters[1+n/2] + "x", prefix + letters[1+n]}
 			if fc.wild {
 				// the big node also has a parameter edge and a catch-all edge (registered last); new routes
 				// go through those edges
